@@ -259,7 +259,7 @@ class Session(BusSession):
 def run(ctx):
     quick = ctx.tier == 'quick'
     total = {'states': 0, 'transitions': 0}
-    depth = 8 if quick else 12
+    depth = 9 if quick else 12
     res = []
     for timeout in ([5000] if quick else [5000, None]):
         st = explore.bfs(ctx, FACTORY, {'reply_timeout': timeout}, max_depth=depth, ops_chunk=12)
